@@ -120,6 +120,7 @@ type monitor struct {
 	hits   int
 	misses int
 	sets   int
+	seq    bool // sequential family: no cleaner runs concurrently, so every miss of a live entry is a defect
 }
 
 func newMonitor(maxTTL int64, res *lib.Result, c *Case) *monitor {
@@ -159,9 +160,21 @@ func (m *monitor) onGet(k string, hit bool, v int, now time.Time) {
 		return
 	}
 	want := r != nil && live(r, now)
+	if r != nil && want && r.at.Nanosecond() != 0 {
+		if rest := r.eff*nsPerSecond - int64(now.Sub(r.at)); rest > 0 && rest <= nsPerSecond {
+			m.res.Hit("monitor:get-in-last-second-before-expiry(set at non-whole-second clock)")
+		}
+	}
+	idHit, idMiss := "get-returned-expired-deleted-or-reset-value", "get-missed-live-entry"
+	if m.seq {
+		idHit, idMiss = "get-hit-expired", "get-missed-live-entry-sequential"
+		if r == nil {
+			idHit = "get-hit-deleted-or-reset"
+		}
+	}
 	switch {
 	case hit && !want:
-		m.res.Violate("get-returned-expired-deleted-or-reset-value",
+		m.res.Violate(idHit,
 			fmt.Sprintf("Get(%q) hit v=%d although the statement demands a miss (rec=%+v now=%s)", k, v, r, showTime(now)), m.c)
 	case hit && v != r.val:
 		m.res.Violate("get-returned-superseded-value",
@@ -172,8 +185,8 @@ func (m *monitor) onGet(k string, hit bool, v int, now time.Time) {
 			m.misses++
 			return
 		}
-		m.res.Violate("get-missed-live-entry",
-			fmt.Sprintf("Get(%q) missed although v=%d was set %s ago with ttl %ds and not deleted/reset", k, r.val, now.Sub(r.at), r.eff), m.c)
+		m.res.Violate(idMiss,
+			fmt.Sprintf("Get(%q) missed although v=%d was set %s ago (at %s, read at %s) with ttl %ds and not deleted/reset", k, r.val, now.Sub(r.at), showTime(r.at), showTime(now), r.eff), m.c)
 	}
 	if hit {
 		m.hits++
@@ -226,6 +239,9 @@ func (m *monitor) nontrivial() bool { return m.sets > 0 && m.hits > 0 && m.misse
 
 var keys = []string{"a", "b", "c", "d"}
 
+// curMon is the monitor of the case being generated (its op log drives some probes).
+var curMon *monitor
+
 var maxTTLs = []int64{0, 0, -3, 1, 2, 5, 15, 15, 60, maxSafeTTL, maxSafeTTL + 1, 1 << 40}
 
 type seqExec struct {
@@ -241,7 +257,9 @@ func newSeqExec(maxTTL int64, res *lib.Result, cs *Case) *seqExec {
 		MaxTTL:          maxTTL,
 		CleanupInterval: 100 * 365 * 24 * time.Hour, // the periodic cleaner never fires in seq mode
 	}, clk)
-	return &seqExec{c: c, clk: clk, mon: newMonitor(maxTTL, res, cs), res: res}
+	mon := newMonitor(maxTTL, res, cs)
+	mon.seq = true
+	return &seqExec{c: c, clk: clk, mon: mon, res: res}
 }
 
 // exec runs one protocol line against the real cache and returns the canonical answer.
@@ -331,6 +349,28 @@ func pickTTL(r *lib.Rand, maxTTL int64) int64 {
 
 // pickAdvance: mostly to just before / exactly at / just after the expiry of a stored entry.
 func pickAdvance(r *lib.Rand, c *ttlcache.Cache[int], now time.Time, res *lib.Result) int64 {
+	if mon := curMon; mon != nil && r.Intn(3) == 0 {
+		// probes computed from the harness's own op log: into the last second before the true expiry
+		var cands []int64
+		for _, rec := range mon.last {
+			if rec.unknown {
+				continue
+			}
+			rest := rec.eff*nsPerSecond - int64(now.Sub(rec.at))
+			if rest > 1 && rec.eff <= 1<<31 {
+				cands = append(cands, rest)
+			}
+		}
+		if len(cands) > 0 {
+			rest := cands[r.Intn(len(cands))]
+			res.Hit("advance:into-last-second-before-true-expiry")
+			back := int64(r.Range(1, 999_999_999))
+			if back >= rest {
+				back = 1
+			}
+			return rest - back
+		}
+	}
 	if r.Intn(4) > 0 {
 		d := c.VerifDump()
 		var cands []time.Duration
@@ -359,13 +399,16 @@ func pickAdvance(r *lib.Rand, c *ttlcache.Cache[int], now time.Time, res *lib.Re
 		}
 	}
 	res.Hit("advance:random")
-	switch r.Intn(5) {
+	switch r.Intn(7) {
 	case 0:
 		return 0
 	case 1:
 		return 1
 	case 2:
 		return nsPerSecond - 1
+	case 3, 4:
+		res.Hit("advance:sub-second-offset")
+		return int64(r.Range(1, 999_999_999)) // leaves the clock at a non-whole-second value
 	default:
 		return int64(r.Range(1, 40)) * nsPerSecond / 4
 	}
@@ -377,6 +420,8 @@ func genSeq(r *lib.Rand, res *lib.Result, n int) (*Case, []string, *monitor) {
 	cs := &Case{Mode: "seq", Seed: r.S}
 	x := newSeqExec(maxTTL, res, cs)
 	defer x.close()
+	curMon = x.mon
+	defer func() { curMon = nil }()
 	nk := r.Range(1, len(keys))
 	var outs []string
 	emit := func(l string) {
@@ -385,6 +430,10 @@ func genSeq(r *lib.Rand, res *lib.Result, n int) (*Case, []string, *monitor) {
 	}
 	emit(fmt.Sprintf("new max=%d t0=%d", maxTTL, t0.UnixNano()))
 	outs[0] = "ok"
+	if r.Intn(4) > 0 { // most histories start at a non-whole-second clock value
+		emit(fmt.Sprintf("adv d=%d", r.Range(1, 999_999_999)))
+		res.Hit("seq:starts-at-sub-second-offset")
+	}
 	val := 0
 	for i := 0; i < n; i++ {
 		k := keys[r.Intn(nk)]
